@@ -10,6 +10,7 @@ CONSTANTS
   MaxK = 2
   MaxF = 1
   CfgSpace <- SmallCfgs
+  SimBias = FALSE
 CONSTRAINT Bound
 CHECK_DEADLOCK FALSE
 INVARIANT TypeOK
